@@ -9,7 +9,10 @@ DRIVER = "drivers/C12.lean"
 SPEC_DRIVER = "drivers/SpecC12.lean"
 DRIVER_MODULES = ["BioCantor.Driver.Main", "BioCantor.Driver.Genbank"]
 SPEC_DRIVER_MODULES = ["BioCantor.Driver.Main", "BioCantor.Driver.SpecGenbank"]
-GEN_NEEDS = ["biotypes"]
+GEN_NEEDS = ["biotypes", "genbank_TranscriptFeatures", "genbank_NonCodingTranscriptFeatures", "genbank_GeneFeatures",
+             "genbank_FeatureCollectionFeatures", "genbank_GeneIntervalFeatures", "genbank_FeatureIntervalFeatures",
+             "genbank_KnownQualifiers", "genbank_MetadataFeatures", "genbank_GenBankParserType", "genbank_GenbankFlavor",
+             "genbank_GENBANK_GENE_FEATURES"]
 MODEL_OPS = {"gbw", "gbp", "gbrt", "gbm"}      # gbc: judged in Python against Bio.SeqIO, spec driver demands `ok clean`
 ERR_CLASS = False
 RULE = ("one case = one operation line.  gbw: one collection x flavour x force_strand x update_translations through the "
@@ -24,7 +27,8 @@ RULE = ("one case = one operation line.  gbw: one collection x flavour x force_s
 EXHAUSTIVE_NOTE = ""
 TRUSTED = ["Model/GenbankWrite.lean and Model/GenbankParse.lean are hand-written; tied to io/genbank/writer.py, "
            "io/genbank/parser.py, gene/*.py export_qualifiers by this run's correspondence (gbw, gbp, gbrt, gbm); the "
-           "GenBank feature-key enums (io/genbank/constants.py) are hand-copied, Gen.biotypes is regenerated",
+           "GenBank feature keys / qualifier names they hard-code are proved equal to the regenerated Gen.genbank_* "
+           "tables (Props.C12.constants_match_generated); Gen.biotypes is regenerated",
            "Biopython 1.88: the GenBank text writer/reader (SeqIO) — the independent reader of clause (a) — and its "
            "codon tables; its text format is trusted (level_note)",
            "harness/shims.py (marshmallow post_dump, vcf stub, SeqFeature(strand=), nofuzzy_start/end)",
